@@ -96,6 +96,57 @@ def records_for(inst):
     return recs, base
 
 
+def delaunay_records(seed):
+    """C->S beyond the lattice: a Delaunay mapper (3 interpolation weights per sub-pixel, several entries per unique mapping) with
+    a function list, signed non-square PSF, sub-size 1..3: the two formalisms must agree to numerical precision."""
+    import autoarray as aa
+
+    rng = np.random.default_rng(seed)
+    inst = ic.random_instance(rng, H=9, W=9, interior=4, layouts=("mf", "fm", "m"), kshapes=((3, 3), (3, 5), (5, 3), (1, 3)))
+    for o in inst["objs"]:
+        o["reg"] = o["type"] == "mapper"
+    ds, objs, skw = ic.build(inst)
+    mask = ds.mask
+    sub = int(rng.integers(1, 4))
+    osr = aa.OverSamplerUniform(mask=mask, sub_size=sub)
+    grid = np.array(osr.over_sampled_grid)
+    pos = grid * np.array([1.0, 0.8]) + 0.15 * np.sin(grid[:, ::-1] * 1.7)   # a smooth distortion
+    lo, hi = pos.min(axis=0) - 0.3, pos.max(axis=0) + 0.3
+    verts = lo + rng.random((int(rng.integers(7, 13)), 2)) * (hi - lo)
+    mesh = aa.Mesh2DDelaunay(values=verts)
+    mg = aa.MapperGrids(mask=mask, source_plane_data_grid=aa.Grid2DIrregular(pos), source_plane_mesh_grid=mesh, image_plane_mesh_grid=None, adapt_data=None)
+    mapper = aa.MapperDelaunay(mapper_grids=mg, over_sampler=osr, border_relocator=None, regularization=aa.reg.Constant(coefficient=1.0))
+    new = [mapper if isinstance(o, aa.MapperRectangular) else o for o in objs]
+    base = ic.tla_instance(inst, [np.zeros((len(inst["u"]), 1), dtype=int) for _ in inst["objs"]])
+    r = {k: base[k] for k in ("kh", "kw", "K")}
+    r["objs"] = []
+    r.update({"p": "C04", "api": "pairdf", "formalism": "pair-delaunay", "raised": False, "tol": 30})
+    try:
+        out = {}
+        for f, use_w in (("m", False), ("w", True)):
+            inv = aa.Inversion(dataset=ds, linear_obj_list=new, settings=aa.SettingsInversion(use_w_tilde=use_w, use_positive_only_solver=False, **skw))
+            out[f] = (np.array(inv.data_vector), np.array(inv.curvature_matrix), np.array(inv.reconstruction), np.array(inv.mapped_reconstructed_data))
+        for k_, nm in enumerate(("D", "F", "sig", "map")):
+            scale = max(1e-300, float(np.abs(out["m"][k_]).max()))
+            g = 10.0 ** 7 / scale
+            r[nm + "_m"] = np.rint(out["m"][k_] * g).astype(np.int64).tolist()
+            r[nm + "_w"] = np.rint(out["w"][k_] * g).astype(np.int64).tolist()
+    except Exception as e:
+        r["raised"] = True
+        r["err"] = f"{type(e).__name__}: {str(e)[:80]}"
+        for nm in ("D", "F", "sig", "map"):
+            r[nm + "_m"], r[nm + "_w"] = [], []
+    r["_inst"] = {"delaunay_seed": int(seed)}
+    return [r]
+
+
+def _del_many(seeds):
+    out = []
+    for sd in seeds:
+        out.extend(delaunay_records(sd))
+    return out
+
+
 def _many(insts):
     out = []
     for inst in insts:
@@ -156,6 +207,11 @@ def run(ctx):
     f = ctx.work / "insts.json"
     f.write_text(json.dumps(bases[:n_small]))
     ctx.tlc("NormalEq", CFG_MC, env={"INST_FILE": str(f)}, tag="MC_NormalEq", timeout=1700)
+    ndel = 24 if quick else 300
+    ctx.bounds["delaunay_pairs"] = ndel
+    dseeds = [int(x) for x in rng.integers(0, 2 ** 31 - 1, size=ndel)]
+    for part in core.pmap(_del_many, [dseeds[k : k + 2] for k in range(0, ndel, 2)]):
+        recs.extend(part)
     ctx.exhaustive = False
     ctx.replayed = len(small)
     ctx.sample({"instance": small[0]})
@@ -167,6 +223,10 @@ def run(ctx):
 
 
 def replay(ctx, rp):
+    if "delaunay_seed" in (rp.get("instance") or {}):
+        rej = validate(ctx, delaunay_records(rp["instance"]["delaunay_seed"]), "replay")
+        print("replayed delaunay pair; rejected:", [(r["sig"], r["clauses"]) for r in rej])
+        return ctx.finish()
     recs, base = records_for(rp["instance"])
     for r in recs:
         r["_inst"] = rp["instance"]
